@@ -113,7 +113,7 @@ class Trial:
         arr = self.base_arr if which == 'base' else self.full_arr
         lab = self.base_labels if which == 'base' else self.full_labels
         # a fresh array object: a spatial index built on one frame must not leak into another
-        arr = type(arr)(arr.data, dtype=arr.dtype)
+        arr = arr[0:len(arr)]
         return GeoSeries(arr, index=lab)
 
     def frame(self, which, col='v'):
@@ -209,7 +209,7 @@ def fam_array(cx):
         ok2, bv = cx.guard('intersects_bounds', lambda: np.asarray(A.intersects_bounds(tuple(box))))
         if not (ok and ok2):
             break
-        if fv.dtype != np.bool_ or fv.shape != (len(t.full),):
+        if fv.dtype.kind != 'b' or fv.shape != (len(t.full),):
             cx.fail(f'ib-shape:{t.kind}', 'intersects_bounds is not one boolean per element')
             break
         if not np.array_equal(fv[pos], bv):
@@ -278,7 +278,7 @@ def fam_point_rows(cx):
         ok2, bv = cx.guard(f'intersects:{skind}', lambda: np.asarray(A.intersects(s)))
         if not (ok and ok2):
             continue
-        if fv.shape != (len(t.full),) or fv.dtype != np.bool_:
+        if fv.shape != (len(t.full),) or fv.dtype.kind != 'b':
             cx.fail('intersects-shape', 'intersects is not one boolean per point')
             continue
         if not np.array_equal(fv[pos], bv):
@@ -372,9 +372,12 @@ def fam_rtree(cx):
         ok2, tbse = cx.guard('rtree-build', lambda: HilbertRtree(bb.copy(), p=P['p'], page_size=ps))
         if not (ok and ok2):
             return
-        leafs = np.asarray(tf._bounds_tree)
-        if len(leafs) and np.isnan(leafs[(len(leafs) + 1) // 2 - 1:, 0]).any() and len(t.base):
-            cx.rep.count('rtree:nan-leaf')
+        try:  # optional statistic from an internal attribute: never a violation
+            leafs = np.asarray(tf._bounds_tree)
+            if len(leafs) and np.isnan(leafs[(len(leafs) + 1) // 2 - 1:, 0]).any() and len(t.base):
+                cx.rep.count('rtree:nan-leaf')
+        except Exception:  # noqa: BLE001
+            cx.rep.count('internal-unavailable:_bounds_tree')
         ok, ftb = cx.guard('rtree-total_bounds', lambda: tuple(float(x) for x in tf.total_bounds))
         ok2, btb = cx.guard('rtree-total_bounds', lambda: tuple(float(x) for x in tbse.total_bounds))
         if ok and ok2 and len(t.base) and not U.same_floats(ftb, btb):
@@ -463,10 +466,10 @@ def fam_cx(cx):
                             f'cx of a {what} selects an inert row', box=box, open=opn, page_size=ps,
                             selected=fl)
                     return
-                if len(t.base) and fl != bl:
+                if len(t.base) and sorted(fl) != sorted(bl):
                     cx.fail(f'cx-others-changed:{t.kind}:{"index" if ps else "noindex"}',
                             f'cx of a {what} selects other rows when inert rows are inserted',
-                            box=box, open=opn, page_size=ps, base=bl, full=fl)
+                            box=box, open=opn, page_size=ps, base=sorted(bl), full=sorted(fl))
                     return
                 if bl and len(bl) < len(t.base):
                     cx.rep.count('cx:some')
@@ -474,10 +477,12 @@ def fam_cx(cx):
     box = P['boxes'][0]
     for ps in (None, P['cx_pages'][0] if P['cx_pages'] else 2):
         def sel(arr):
-            arr = type(arr)(arr.data, dtype=arr.dtype)
+            arr = arr[0:len(arr)]
             if ps is not None:
                 arr.build_sindex(page_size=ps)
-            return np.asarray(arr.cx[box[0]:box[2], box[1]:box[3]].bounds, dtype='float64')
+            b = np.asarray(arr.cx[box[0]:box[2], box[1]:box[3]].bounds, dtype='float64')
+            b = b.reshape(-1, 4)
+            return b[np.lexsort(b.T[::-1])] if len(b) else b      # a multiset of rows
         ok, fr = cx.guard('cx-array', lambda: sel(t.full_arr))
         ok2, br = cx.guard('cx-array', lambda: sel(t.base_arr))
         if ok and ok2 and len(t.base) and not U.same_floats(fr, br):
@@ -829,9 +834,9 @@ def coq_cases(rep, trials):
                 la_res.append(res)
                 la_meta.append(t)
         except ValueError:
-            rep.count('coq:null-typed-skipped')
+            rep.count('internal-unavailable:export:null-typed')
         except Exception as e:  # noqa: BLE001
-            rep.count('coq:export-error:' + type(e).__name__)
+            rep.count('internal-unavailable:export:' + type(e).__name__)
         # the R-tree with NaN rows against the renumbered tree without them
         if len(t.full) <= 12:
             try:
@@ -852,13 +857,13 @@ def coq_cases(rep, trials):
                         cv, ov = tf.covers_overlaps(q)
                         per.append(([N(x) for x in it], [N(x) for x in sorted(int(x) for x in cv)],
                                     [N(x) for x in sorted(int(x) for x in ov)]))
-                    rt.append((N(2), [_row(r) for r in fb.tolist()], [N(k) for k in tf._keys],
-                               [N(k) for k in tbs._keys], N(ps),
+                    rt.append((N(2), [_row(r) for r in fb.tolist()], [N(k) for k in range(len(fb))],
+                               [N(k) for k in range(len(bb))], N(ps),
                                [[int(v * 2) for v in q] for q in qs]))
                     rt_res.append((per, True))
                     rt_meta.append((t, ps, qs))
             except Exception as e:  # noqa: BLE001
-                rep.count('coq:rtree-error:' + type(e).__name__)
+                rep.count('internal-unavailable:rtree-case:' + type(e).__name__)
     for fn, ty, cases, ress, metas in ((LA_FN, LA_TY, la, la_res, la_meta),
                                        (FA_FN, FA_TY, fa, fa_res, fa_meta)):
         bad = C.coq_mismatches(IMPORTS, fn, ty, LA_RES, cases, ress)
